@@ -1597,3 +1597,16 @@ package ring
 //@   property C01
 //@   wraps INTTConjugateInvariantLazy(p1, p2, rntt.numberTheoreticTransformerBase.N, rntt.numberTheoreticTransformerBase.NTTTable.NInv, rntt.numberTheoreticTransformerBase.Modulus, rntt.numberTheoreticTransformerBase.MRedConstant, rntt.numberTheoreticTransformerBase.NTTTable.RootsBackward)
 
+
+// ---- the hand-unrolled butterfly layers: index patterns of every run of eight units (structural) ----
+//@ unrolled nttUnrolled16Lazy
+//@   property C01
+
+//@ unrolled inttLazyUnrolled16
+//@   property C01
+
+//@ unrolled nttConjugateInvariantLazyUnrolled16
+//@   property C01
+
+//@ unrolled inttConjugateInvariantLazyUnrolled16
+//@   property C01
